@@ -66,7 +66,7 @@ func (f *Rem) Call(s *slip.Scope, args slip.List, depth int) (result slip.Object
 		div := (*big.Int)(d.(*slip.Bignum))
 		var z big.Int
 		_ = z.Rem((*big.Int)(num), div)
-		result = (*slip.Bignum)(&z)
+		result = reduceInteger(&z)
 	case *slip.Ratio:
 		div := (*big.Rat)(d.(*slip.Ratio))
 		if div.Sign() == 0 {
